@@ -44,6 +44,9 @@ type c12Ans struct {
 	// ZeroLen is a bit mask (1 authentication, 2 integrity, 4 confidentiality) of the
 	// answer's algorithm payloads whose length byte is 0 instead of 8
 	ZeroLen int `json:",omitempty"`
+	// LenMask/LenVal: the length byte of the payloads in LenMask is LenVal instead of 8
+	LenMask int `json:",omitempty"`
+	LenVal  int `json:",omitempty"`
 }
 
 type c12Batch struct {
@@ -194,6 +197,18 @@ func c12Exec(run *ev.Run, c ev.Case) {
 					c12Answer(run, c12Ans{Proposal: b.Proposal, Answer: a, Follow: follow, ZeroLen: 7})
 				}
 			}
+			// answers whose payload length byte is neither 0 nor 8: naming other algorithms, and
+			// naming the proposed ones (the answer is then malformed: either refusal or
+			// acceptance of the confirmed proposal is in order, a panic is not)
+			for mask := 1; mask < 8; mask++ {
+				for _, lv := range []int{1, 7, 9, 0x10, 0x24, 0x80, 0xff} {
+					a := b.Proposal
+					if mask&2 != 0 && lv%2 == 1 {
+						a.Integ = 0
+					}
+					c12Answer(run, c12Ans{Proposal: b.Proposal, Answer: a, Follow: lv%3 == 0, LenMask: mask, LenVal: lv})
+				}
+			}
 		case "ans-all":
 			for i := 0; i < 64; i++ {
 				for j := 0; j < 64; j++ {
@@ -292,6 +307,22 @@ func c12Select(run *ev.Run, s c12Sel) {
 			}
 		}
 	}
+	used := s.Shuffle%2 == 1
+	if used {
+		// the connection has been through a handshake with discovery before (another
+		// preference list); what it learnt then must not influence this one
+		pc, pcancel := e.LimitCtx(40)
+		ps, _ := e.ST.NewV2Session(pc, &bmc.V2SessionOpts{
+			SessionOpts:  bmc.SessionOpts{Username: cfg.Username, Password: cfg.Password, MaxPrivilegeLevel: ipmi.PrivilegeLevelAdministrator},
+			CipherSuites: []ipmi.CipherSuite{libSuite(c12U[(s.Shuffle/2)%2]), libSuite(c12U[4])},
+		})
+		if ps != nil {
+			ps.Close(pc)
+		}
+		pcancel()
+		e.BMC.ResetLog()
+		server.Requests = nil
+	}
 	ctx, cancel := e.LimitCtx(40)
 	defer cancel()
 	var sess *bmc.V2Session
@@ -302,7 +333,7 @@ func c12Select(run *ev.Run, s c12Sel) {
 			CipherSuites: prefs,
 		})
 	})
-	desc := fmt.Sprintf("prefs %v (empty form %d) advertised %06b", s.Prefs, s.Empty, s.Advertised)
+	desc := fmt.Sprintf("prefs %v (empty form %d, connection used before: %v) advertised %06b", s.Prefs, s.Empty, used, s.Advertised)
 	if pv != nil {
 		run.Violation("C12:panic:"+panicSite(st), fmt.Sprintf("NewV2Session panicked (%s): %v\n%s", desc, pv, trimStack(st)), cs, nil)
 		return
@@ -319,7 +350,7 @@ func c12Select(run *ev.Run, s c12Sel) {
 		}
 		run.Event(evn.Kind, 1)
 	}
-	run.Nontrivial(fmt.Sprintf("sel %v %d %d", s.Prefs, s.Advertised, s.Empty))
+	run.Nontrivial(fmt.Sprintf("sel %v %d %d %v", s.Prefs, s.Advertised, s.Empty, used))
 	if (disc > 0) != wantDiscovery {
 		run.Violation("C12:discovery-use", fmt.Sprintf("%s: %d Get Channel Cipher Suites requests, discovery expected: %v", desc, disc, wantDiscovery), cs, nil)
 		return
@@ -382,6 +413,9 @@ func c12Answer(run *ev.Run, a c12Ans) {
 				if a.ZeroLen&(1<<axis) != 0 {
 					m[off] = 0
 				}
+				if a.LenMask&(1<<axis) != 0 {
+					m[off] = byte(a.LenVal)
+				}
 			}
 			if a.Follow && e.BMC.Sess != nil {
 				ok := refbmc.HashFor(a.Answer.Auth) != nil
@@ -415,11 +449,15 @@ func c12Answer(run *ev.Run, a c12Ans) {
 			sess.GetDeviceID(c2)
 		}
 	})
-	desc := fmt.Sprintf("proposal %v (caller's list %v) answered %v (bmc follows: %v, zero-length payload mask %d)", a.Proposal, a.List, a.Answer, a.Follow, a.ZeroLen)
-	run.Nontrivial(fmt.Sprintf("ans %v %v %v %v %d", a.Proposal, a.Answer, a.Follow, a.List, a.ZeroLen))
+	desc := fmt.Sprintf("proposal %v (caller's list %v) answered %v (bmc follows: %v, zero-length payload mask %d, length byte %#x on mask %d)", a.Proposal, a.List, a.Answer, a.Follow, a.ZeroLen, a.LenVal, a.LenMask)
+	run.Nontrivial(fmt.Sprintf("ans %v %v %v %v %d %d/%d", a.Proposal, a.Answer, a.Follow, a.List, a.ZeroLen, a.LenMask, a.LenVal))
 	run.Event("handshakes", 1)
 	if pv != nil {
 		run.Violation("C12:panic:"+panicSite(st), fmt.Sprintf("%s: panic %v\n%s", desc, pv, trimStack(st)), cs, nil)
+		return
+	}
+	if a.Answer == a.Proposal && a.LenMask != 0 {
+		run.Observe(fmt.Sprintf("malformed-length-byte-confirming-answer-accepted:%v", err == nil), 1)
 		return
 	}
 	if a.Answer == a.Proposal {
